@@ -694,7 +694,16 @@ func (in *Interp) prepareCall(fr *frame, call *ssa.CallCommon) (fn Value, args [
 		switch recv := v.(type) {
 		case Iface:
 			if recv.T == nil {
-				panic(runtimeError{"runtime error: invalid memory address or nil pointer dereference (method call on nil interface)"})
+				if in.isHarnessModelWrapper(fr.fn) {
+					// a harness model embeds the interface it implements partially; reaching a method it does not
+					// define is a gap of the environment model, not a panic of the code under check
+					in.unsupported("harness model %s does not implement %s", fr.fn.Signature.Recv().Type(), call.Method.Name())
+				}
+				chain := ""
+				for f, k := fr, 0; f != nil && k < 8; f, k = f.caller, k+1 {
+					chain += " < " + f.fn.Name()
+				}
+				panic(runtimeError{fmt.Sprintf("runtime error: invalid memory address or nil pointer dereference (method call %s on nil interface;%s)", call.Method.Name(), chain)})
 			}
 			if _, isP := recv.V.(Poison); isP {
 				fn = &poisonCall{call.Method}
@@ -719,6 +728,22 @@ func (in *Interp) prepareCall(fr *frame, call *ssa.CallCommon) (fn Value, args [
 }
 
 type poisonCall struct{ m *types.Func }
+
+func (in *Interp) isHarnessModelWrapper(fn *ssa.Function) bool {
+	if fn == nil || fn.Synthetic == "" || fn.Signature.Recv() == nil {
+		return false
+	}
+	t := fn.Signature.Recv().Type()
+	if p, ok := t.(*types.Pointer); ok {
+		t = p.Elem()
+	}
+	n, ok := types.Unalias(t).(*types.Named)
+	if !ok {
+		return false
+	}
+	pos := in.prog.Fset.Position(n.Obj().Pos())
+	return strings.Contains(pos.Filename, "zz_verif_")
+}
 
 func (in *Interp) call(caller *frame, pos token.Pos, fn Value, args []Value) Value {
 	switch fn := fn.(type) {
